@@ -108,6 +108,8 @@ pub struct Scope {
     type_aliases: IndexMap<String, u32>,
     /// The map of resource names to their encoded indexes.
     resources: IndexMap<String, u32>,
+    /// The types that were brought into this scope with a `use`.
+    used_types: HashSet<Type>,
     /// The encodable for this scope.
     encodable: Encodable,
 }
@@ -225,6 +227,7 @@ impl<'a> TypeEncoder<'a> {
         if let Some(name) = name {
             if let Some(index) = state.used_type_index(name) {
                 state.current.type_indexes.insert(ty, index);
+                state.current.used_types.insert(ty);
                 return index;
             }
         }
@@ -282,7 +285,14 @@ impl<'a> TypeEncoder<'a> {
             DefinedType::Alias(ValueType::Primitive(ty)) => Self::primitive(state, *ty),
             DefinedType::Alias(ValueType::Borrow(id)) => self.borrow(state, *id),
             DefinedType::Alias(ValueType::Own(id)) => self.own(state, *id),
-            DefinedType::Alias(ValueType::Defined(id)) => self.defined(state, *id),
+            DefinedType::Alias(ty @ ValueType::Defined(id)) => {
+                // An alias of a used type refers to that type; its definition
+                // mentions types that are not available in this scope
+                match state.current.type_indexes.get(&Type::Value(*ty)) {
+                    Some(index) if state.current.used_types.contains(&Type::Value(*ty)) => *index,
+                    _ => self.defined(state, *id),
+                }
+            }
             DefinedType::Stream(ty) => self.stream(state, *ty),
             DefinedType::Future(ty) => self.future(state, *ty),
         };
